@@ -14,7 +14,8 @@ ASSUMPTIONS = [
     "threshold comparisons within rel. 1e-9 of the boundary accept both outcomes",
     "the expansion of the root in the constructor is part of the published initialisation, not a round",
 ]
-FLOOR = {"rounds_growth_checked": {"quick": 20000, "thorough": 400000}, "expansions_judged": {"quick": 3000, "thorough": 60000}}
+FLOOR = {"rounds_growth_checked": {"quick": 20000, "thorough": 160000},
+         "expansions_judged": {"quick": 3000, "thorough": 24000}}
 WALL = {"quick": 1500, "thorough": 5 * 3600}
 gen_cases = None
 
